@@ -44,6 +44,7 @@ def run(ctx):
     ctx.decided("cell width/sign and produced variant per column type; packed-bool bit = N; big-endian cell reads")
     ctx.decided("column and string seek provenance, row-header skip constant, sub-row stride")
     ctx.decided("language code table, page file-name templates, header path template")
+    ctx.decided("no mutable state other than the cursor flows between cell / sub-row decodes (STATELESS)")
     ctx.not_decided("row lookup across pages; string contents; numeric cell values; u16 overflow of the sub-row offset arithmetic for large sheets")
 
     n = w1(ctx, ["exh::EXHHeader", "exh::ExcelColumnDefinition", "exh::ExcelDataPagination", "exh::EXH", "exd::EXDHeader", "exd::ExcelDataOffset", "exd::ExcelDataRowHeader", "exd::EXD"])
@@ -216,6 +217,27 @@ def run(ctx):
                     if "data_offset" in flds and has_row and has_read:
                         ok = True
         ctx.ob("SEEK", "string-seek", ok, f"string cells seek to {det}; must be row_offset + data_offset + stored offset", rb.file, rb.line)
+
+    # ---- STATELESS: decoding a sub-row depends only on the data, the schema and its offset (no state carried between
+    # sub-rows or cells other than the cursor position, which is re-seeked for every cell)
+    if rb:
+        muts = [rb.locals[i]["ty"] for i in range(1, rb.argc + 1) if rb.locals[i]["ty"].startswith("&mut ")]
+        ctx.ob("STATELESS", "read_column-params", len(muts) == 1 and "Cursor" in muts[0], f"read_column takes mutable state {muts}; only the cursor may be mutable", rb.file, rb.line)
+    if row:
+        caps = []
+        for _bi, _si, s_ in row.stmts():
+            rv = s_.get("rv", {})
+            if rv.get("k") == "agg" and rv.get("ak") == "closure":
+                from ..mir import op_place as _opl
+
+                for o in rv["ops"]:
+                    pl = _opl(o)
+                    if pl is not None:
+                        caps.append(pl["ty"])
+        mut_caps = [c for c in caps if c.startswith("&mut ")]
+        ctx.ob("STATELESS", "row-closure-captures", len(mut_caps) == 1 and "Cursor" in mut_caps[0], f"the per-sub-row closure captures mutable state {mut_caps}; only the cursor may be captured mutably", row.file, row.line)
+        statics = [c for c in prog.consts.values() if c["path"].startswith("exd::") and ("Cell" in c["ty"] or "Mutex" in c["ty"] or "Atomic" in c["ty"])]
+        ctx.ob("STATELESS", "no-interior-mutable-statics", not statics, f"interior-mutable statics in exd: {[c['path'] for c in statics]}", row.file, row.line, trivial=True)
 
     # ---- NAMES
     lb = prog.body("common::get_language_code")
